@@ -117,3 +117,10 @@ impl<K: ExpiredKey<E>, E: Expiration, V: Copy> KeyExpList<K, E, V> {
         self.min_exp = new_min_exp;
     }
 }
+
+#[cfg(feature = "verif")]
+impl<K: ExpiredKey<E>, E: Expiration, V: Copy> KeyExpList<K, E, V> {
+    pub fn verif_state(&self) -> (Vec<(K, V)>, E) {
+        (self.buffer.iter().map(|e| (e.key, e.val)).collect(), self.min_exp)
+    }
+}
